@@ -56,3 +56,136 @@ pub fn value_to_m_raw(v: &Value) -> M {
 pub fn err_sig(e: &sonic_rs::Error) -> String {
     format!("{:?}", e.classify())
 }
+
+use vbase::refjson::{classify_number, Kind, Node, NumClass};
+
+/// Walk a DOM value using `get_type` dispatch; in raw mode numbers are reported through
+/// `as_raw_number`.
+pub fn walk(v: &Value, raw: bool) -> M {
+    use sonic_rs::JsonType as T;
+    match v.get_type() {
+        T::Null => {
+            if v.is_null() {
+                M::Null
+            } else {
+                M::Str("<type null but !is_null>".into())
+            }
+        }
+        T::Boolean => match v.as_bool() {
+            Some(b) => M::Bool(b),
+            None => M::Str("<type bool but as_bool None>".into()),
+        },
+        T::Number => {
+            if raw {
+                match v.as_raw_number() {
+                    Some(r) => M::Raw(r.as_str().to_string()),
+                    None => match v.as_number() {
+                        Some(n) => number_to_m(&n),
+                        None => M::Str("<number without as_number>".into()),
+                    },
+                }
+            } else {
+                match v.as_number() {
+                    Some(n) => number_to_m(&n),
+                    None => M::Str("<number without as_number>".into()),
+                }
+            }
+        }
+        T::String => match v.as_str() {
+            Some(s) => M::Str(s.to_string()),
+            None => M::Str("<type string but as_str None>".into()),
+        },
+        T::Array => match v.as_array() {
+            Some(a) => {
+                let items: Vec<M> = a.iter().map(|x| walk(x, raw)).collect();
+                if a.len() != items.len() {
+                    return M::Str("<array len() differs from iteration>".into());
+                }
+                M::Arr(items)
+            }
+            None => M::Str("<type array but as_array None>".into()),
+        },
+        T::Object => match v.as_object() {
+            Some(o) => {
+                let items: Vec<(String, M)> = o.iter().map(|(k, x)| (k.to_string(), walk(x, raw))).collect();
+                if o.len() != items.len() {
+                    return M::Str("<object len() differs from iteration>".into());
+                }
+                M::Obj(items)
+            }
+            None => M::Str("<type object but as_object None>".into()),
+        },
+    }
+}
+
+/// Compare a walked value with the reference node. Returns Err((kind, description)).
+/// `ordered`: object members must be in source order with duplicates (parsed, unmodified DOM).
+pub fn cmp_node(n: &Node, b: &[u8], got: &M, raw: bool, path: &mut String) -> Result<(), (&'static str, String)> {
+    let mismatch = |kind: &'static str, path: &str, want: String, got: &M| Err((kind, format!("at {path}: expected {want}, got {}", vbase::refjson::trunc(&got.dump(), 200))));
+    match (&n.kind, got) {
+        (Kind::Null, M::Null) => Ok(()),
+        (Kind::Bool(x), M::Bool(y)) if x == y => Ok(()),
+        (Kind::Num, g) => {
+            let lit = std::str::from_utf8(n.span.of(b)).unwrap();
+            if raw {
+                return match g {
+                    M::Raw(r) if r == lit => Ok(()),
+                    _ => mismatch("raw-number", path, format!("raw {lit}"), g),
+                };
+            }
+            let ok = match (classify_number(lit), g) {
+                (NumClass::U64(u), M::U64(x)) => u == *x,
+                (NumClass::I64(i), M::I64(x)) => i == *x,
+                (NumClass::F64(f), M::F64(bits)) => f.to_bits() == *bits,
+                // `-0` (integer grammar): both readings of the statement are accepted
+                (NumClass::F64(f), M::U64(0)) | (NumClass::F64(f), M::I64(0)) => f.to_bits() == (-0.0f64).to_bits() && vbase::refjson::is_int_literal(lit),
+                _ => false,
+            };
+            if ok {
+                Ok(())
+            } else {
+                let kind = if lit.starts_with('-') && lit.trim_start_matches('-').bytes().all(|c| matches!(c, b'0' | b'.' | b'e' | b'E' | b'+' | b'-') || c.is_ascii_digit()) && lit.parse::<f64>().map(|f| f == 0.0).unwrap_or(false) {
+                    "number/negative-zero"
+                } else {
+                    "number"
+                };
+                mismatch(kind, path, format!("{:?} from literal {lit}", classify_number(lit)), g)
+            }
+        }
+        (Kind::Str(s), M::Str(t)) => {
+            if &s.text == t {
+                Ok(())
+            } else {
+                mismatch("string", path, format!("{:?}", vbase::refjson::trunc(&s.text, 100)), got)
+            }
+        }
+        (Kind::Arr(v), M::Arr(w)) => {
+            if v.len() != w.len() {
+                return mismatch("structure", path, format!("array of {} elements", v.len()), got);
+            }
+            for (i, (x, y)) in v.iter().zip(w.iter()).enumerate() {
+                let l = path.len();
+                path.push_str(&format!("[{i}]"));
+                cmp_node(x, b, y, raw, path)?;
+                path.truncate(l);
+            }
+            Ok(())
+        }
+        (Kind::Obj(v), M::Obj(w)) => {
+            if v.len() != w.len() {
+                return mismatch("structure/members", path, format!("object of {} members", v.len()), got);
+            }
+            for ((k, x), (kk, y)) in v.iter().zip(w.iter()) {
+                if &k.text != kk {
+                    return mismatch("structure/key", path, format!("key {:?}", k.text), &M::Str(kk.clone()));
+                }
+                let l = path.len();
+                path.push_str(&format!(".{k:?}", k = vbase::refjson::trunc(&k.text, 20)));
+                cmp_node(x, b, y, raw, path)?;
+                path.truncate(l);
+            }
+            Ok(())
+        }
+        _ => mismatch("structure/kind", path, format!("{:?}", std::mem::discriminant(&n.kind)), got),
+    }
+}
